@@ -38,6 +38,7 @@ pub const POOL: &[&str] = &[
     "[1, \"a\", null, true, [1], {a: 1}, x => x, sum]",
     "{}", "{a: 1, b: \"x\"}", "{a: {b: [1]}, \"é\": null}",
     "x => x", "(a, b) => a + b", "(...r) => r", "x => x.nope.nope", "() => 1", "x => \"k\"", "x => x > 1", "(a, b) => a",
+    "(a?, b) => b", "(...r, x) => x", "(a, ...r, b?) => [a, r, b]", "(a?, b?, c) => c",
     "sum", "map", "to_string",
 ];
 
@@ -381,6 +382,7 @@ fn inputs_json(t: &mut Tape) -> String {
 }
 
 const NOISE: &[&str] = &[
+    "((a?, b) => b)(1)", "((...r, x) => x)(1)", "((a, ...r, b?) => b)(1)", "((a?, b) => b)()", "[1] via ((i?, x) => x)",
     "\"str\"", "null", "[]", "{}", "inputs.f", "#f", "inputs.f(2)", "#f(1, 2, 3)", "(x => x.q)(1)", "1 / 0", "0 / 0", "-inf", "[1, \"a\"]", "nope_undefined", "{a: 1}.a.b",
     "median([0/0, 1])", "percentile([], 50)", "chunk([1], 0.5)", "slice(\"héllo\", 1, 2)", "range(-1e30, 1e30)", "sort(range(25) via (i => if i % 2 == 0 then i else \"s\"))",
     "(10 ^ 12)!", "18446744073709551616!", "round(1.5, 1e30)", "format(\"{} {} {}\", 1)", "split(\"\", \"\")", "to_number(\"1e999\")", "convert(1, \"c\", \"C\")", "head(\"\")", "tail(\"é\")",
